@@ -706,7 +706,7 @@ func (m *Machine) build(op Op, pid, secret string) *harness.Req {
 	case "totpsetup":
 		return &harness.Req{Browser: b, Method: "POST", Path: P("/2fa/totp/setup"), Form: map[string]string{}}
 	case "totpconfirm":
-		return &harness.Req{Browser: b, Method: "POST", Path: P("/2fa/totp/confirm"), Form: map[string]string{"code": secret}}
+		return &harness.Req{Browser: b, Method: "POST", Path: P("/2fa/totp/confirm"), Form: m.codeFields(op, secret)}
 	case "totpremove":
 		return &harness.Req{Browser: b, Method: "POST", Path: P("/2fa/totp/remove"), Form: m.codeFields(op, secret)}
 	case "totpvalidate":
@@ -716,7 +716,7 @@ func (m *Machine) build(op Op, pid, secret string) *harness.Req {
 	case "smssetup":
 		return &harness.Req{Browser: b, Method: "POST", Path: P("/2fa/sms/setup"), Form: map[string]string{"phone_number": op.S}}
 	case "smsconfirm":
-		return &harness.Req{Browser: b, Method: "POST", Path: P("/2fa/sms/confirm"), Form: map[string]string{"code": secret}}
+		return &harness.Req{Browser: b, Method: "POST", Path: P("/2fa/sms/confirm"), Form: m.codeFields(op, secret)}
 	case "smsremove":
 		return &harness.Req{Browser: b, Method: "POST", Path: P("/2fa/sms/remove"), Form: m.codeFields(op, secret)}
 	case "smsvalidate":
